@@ -3,14 +3,17 @@
 //! deserializers); after a successful deserialization the panicking accessors are called.
 use crate::alloc::guarded;
 use crate::chunks::ChunkWriter;
-use crate::natural::{diff_path, find_num, get_path, positional, self_describing, Template};
+use crate::natural::{diff_path, find_num, get_path, self_describing, tree, Template, TreeSer};
+use crate::tree_de::{from_tree, Cfg, Ident};
 use crate::pure::{frame_code, structured_code, structured_of};
 use helgoboss_midi::*;
 use serde::de::value::{Error as DeError, I16Deserializer, I32Deserializer, I64Deserializer, I8Deserializer,
                        U16Deserializer, U32Deserializer, U64Deserializer, U8Deserializer};
 use serde::de::IntoDeserializer;
-use serde::Deserialize;
+use serde::de::DeserializeOwned;
+use serde::{Deserialize, Serialize};
 use serde_json::{from_value, json, to_value, Value};
+use std::convert::TryFrom;
 
 const PANIC: i64 = -2;
 
@@ -22,6 +25,54 @@ fn enc(v: i128) -> (i64, i64) {
     } else {
         (0, v as i64)
     }
+}
+
+/// One way of presenting values to `Deserialize`: how the natural representation is obtained
+/// (`ser`: None = serde_json::to_value) and which deserializer reads the tree (`de`: None =
+/// serde_json::from_value, i.e. human-readable JSON).
+#[derive(Clone, Copy)]
+pub struct Way {
+    pub code: i64,
+    pub ser: Option<TreeSer>,
+    pub de: Option<Cfg>,
+    /// row kinds for raw / cc14 / pn / structured inputs (0 = family not run in this way)
+    pub kinds: [i64; 4],
+    /// the natural representation must round-trip in this way (serializer and deserializer match)
+    pub roundtrip: bool,
+}
+
+impl Way {
+    fn ser<T: Serialize>(&self, v: &T) -> Value {
+        match self.ser {
+            None => self_describing(v),
+            Some(c) => tree(v, c),
+        }
+    }
+    fn de<T: DeserializeOwned>(&self, v: Value) -> Result<T, String> {
+        match self.de {
+            None => from_value::<T>(v).map_err(|e| e.to_string()),
+            Some(c) => from_tree::<T>(&v, c).map_err(|e| e.to_string()),
+        }
+    }
+}
+
+pub fn ways() -> Vec<Way> {
+    let t = |maps, human| Some(TreeSer { maps, human });
+    let d = |human, narrow, ident| Some(Cfg { human, narrow, ident });
+    vec![
+        // JSON: soundness and completeness
+        Way { code: 0, ser: None, de: None, kinds: [2, 3, 4, 5], roundtrip: true },
+        // structs as sequences, read by JSON
+        Way { code: 1, ser: t(false, true), de: None, kinds: [0, 9, 8, 0], roundtrip: false },
+        // a self-describing format that is NOT human-readable
+        Way { code: 2, ser: t(true, false), de: d(false, false, Ident::Str), kinds: [12, 9, 8, 15], roundtrip: true },
+        // a positional binary-like format: not human-readable, narrow integers
+        Way { code: 3, ser: t(false, false), de: d(false, true, Ident::Str), kinds: [12, 9, 8, 15], roundtrip: true },
+        // identifiers by index / as bytes (soundness only)
+        Way { code: 4, ser: t(true, true), de: d(true, true, Ident::Index), kinds: [12, 9, 8, 15], roundtrip: false },
+        Way { code: 5, ser: t(true, false), de: d(false, true, Ident::Bytes), kinds: [12, 9, 8, 15], roundtrip: false },
+        Way { code: 6, ser: t(false, true), de: d(true, false, Ident::Str), kinds: [12, 9, 8, 15], roundtrip: true },
+    ]
 }
 
 macro_rules! int_rows {
@@ -86,11 +137,50 @@ macro_rules! int_rows {
             };
             $w.push(&[7, $tc, v, 0, 0, 0, ok, eq]);
         }
+        // the other data formats (tree_de.rs): forms 10 + 10 * way + {0 number, 1 byte string, 2 string, 3 [n]}
+        for way in ways().iter().filter(|w| w.de.is_some()) {
+            for &n in $ints.iter() {
+                if !(n < 300 || n % 251 == 0 || (n > 16380 && n < 16390) || n > 65530) {
+                    continue;
+                }
+                let (cls, vv) = enc(n);
+                let mut forms: Vec<(i64, Value)> = vec![
+                    (0, if n >= 0 { json!(n as u64) } else { json!(n as i64) }),
+                    (2, json!(format!("{}", n))),
+                    (3, json!([n as i64])),
+                ];
+                if n >= 0 && n < 65536 {
+                    forms.push((1, if n < 256 { json!({"$bytes": [n]}) } else { json!({"$bytes": [n % 256, n / 256]}) }));
+                }
+                for (form, val) in forms {
+                    let (r, _) = guarded(|| way.de::<$T>(val).map(|x| x.get() as i64));
+                    let (ok, res) = match r {
+                        Some(Ok(x)) => (1, x),
+                        Some(Err(_)) => (0, -1),
+                        None => (PANIC, PANIC),
+                    };
+                    $w.push(&[0, $tc, 10 + 10 * way.code + form, cls, vv, ok, res]);
+                }
+            }
+            if way.roundtrip {
+                for v in 0..=(<$T>::MAX.get() as i64) {
+                    let x = <$T>::new(v as _);
+                    let (r, _) = guarded(|| way.de::<$T>(way.ser(&x)).map(|y| y == x));
+                    let (ok, eq) = match r {
+                        Some(Ok(e)) => (1, e as i64),
+                        Some(Err(_)) => (0, 0),
+                        None => (PANIC, PANIC),
+                    };
+                    $w.push(&[7, 100 * way.code + $tc, v, 0, 0, 0, ok, eq]);
+                }
+            }
+        }
     };
 }
 
 /// Template of a 14-bit CC message in the given form (self-describing or positional).
-fn cc14_template(form: fn(&ControlChange14BitMessage) -> Value) -> Template {
+fn cc14_template(way: &Way) -> Template {
+    let form = |m: &ControlChange14BitMessage| way.ser(m);
     let base = form(&ControlChange14BitMessage::new(Channel::new(1), ControllerNumber::new(2), U14::new(3)));
     let fields = vec![
         ("channel".to_string(), find_num(&base, 1, "channel")),
@@ -107,7 +197,8 @@ struct PnTemplate {
     dt: [Value; 4],
 }
 
-fn pn_template(form: fn(&ParameterNumberMessage) -> Value) -> PnTemplate {
+fn pn_template(way: &Way) -> PnTemplate {
+    let form = |m: &ParameterNumberMessage| way.ser(m);
     let (c, n, v) = (Channel::new(1), U14::new(2), U7::new(3));
     let a = form(&ParameterNumberMessage::registered_7_bit(c, n, v));
     let nonreg = form(&ParameterNumberMessage::non_registered_7_bit(c, n, v));
@@ -134,7 +225,8 @@ fn pn_template(form: fn(&ParameterNumberMessage) -> Value) -> PnTemplate {
 
 /// Natural (self-describing) representation of a structured message given by its code, with the
 /// numeric fields patched in (so that out-of-range field values can be expressed).
-fn structured_input(c: [i64; 4]) -> Value {
+fn structured_input(way: &Way, c: [i64; 4]) -> Value {
+    let self_describing = |m: &StructuredShortMessage| way.ser(m);
     let g = |x: &Value, p: &crate::natural::Path| get_path(x, p).unwrap().clone();
     match c[0] {
         0..=3 => {
@@ -172,6 +264,241 @@ fn structured_input(c: [i64; 4]) -> Value {
     }
 }
 
+/// Patched natural representations of the composite types, presented in one `way`.
+fn composite_rows(w: &mut ChunkWriter, way: &Way) {
+    let [k_raw, k_cc14, k_pn, k_st] = way.kinds;
+    if k_raw != 0 {
+        // RawShortMessage: natural representation of (144, 1, 2), patched
+        let raw_base = way.ser(&RawShortMessage::from_bytes((144, U7::new(1), U7::new(2))).unwrap());
+        let raw_t = Template {
+            fields: vec![("s".into(), find_num(&raw_base, 144, "status")), ("a".into(), find_num(&raw_base, 1, "data 1")),
+                         ("b".into(), find_num(&raw_base, 2, "data 2"))],
+            base: raw_base,
+        };
+        let ss = [0i64, 1, 2, 127, 128, 144, 176, 239, 240, 241, 247, 248, 255, 256, 300, -1];
+        let ds = [0i64, 1, 127, 128, 200, 255, 256, -1];
+        let one = |w: &mut ChunkWriter, kind: i64, s: i64, a: i64, b: i64, input: Value| {
+            let (r, _) = guarded(|| way.de::<RawShortMessage>(input));
+            let mut row = vec![kind, s, a, b];
+            match r {
+                Some(Ok(m)) => {
+                    let (t, _) = guarded(|| u8::from(m.r#type()) as i64);
+                    let (st, _) = guarded(|| structured_code(&m.to_structured()));
+                    row.extend_from_slice(&[1, m.status_byte() as i64, m.data_byte_1().get() as i64,
+                                            m.data_byte_2().get() as i64, t.unwrap_or(PANIC),
+                                            st.map(|x| x[0]).unwrap_or(PANIC)]);
+                }
+                Some(Err(_)) => row.push(0),
+                None => row.push(PANIC),
+            }
+            w.push(&row);
+        };
+        for &s in &ss {
+            for &a in &ds {
+                for &b in &ds {
+                    one(w, k_raw, s, a, b, raw_t.with(&[("s", json!(s)), ("a", json!(a)), ("b", json!(b))]));
+                    // the same three numbers as a byte string (formats with a bytes type)
+                    if way.de.is_some() && [s, a, b].iter().all(|x| (0..256).contains(x)) {
+                        one(w, 12, s, a, b, json!({"$bytes": [s, a, b]}));
+                    }
+                }
+            }
+        }
+        for bad in [json!([144, 1]), json!([144, 1, 2, 3]), json!({"0": 144}), json!("x"), json!(144), json!(null),
+                    json!({"$bytes": [144, 1]}), json!({"$bytes": [144, 1, 2, 3]}), json!({"$bytes": []})] {
+            let (r, _) = guarded(|| way.de::<RawShortMessage>(bad).is_ok() as i64);
+            w.push(&[2, -9, -9, -9, r.unwrap_or(PANIC)]);
+        }
+    }
+
+    if k_cc14 != 0 {
+        let cc14_t = cc14_template(way);
+        for &c in &[0i64, 15, 16, 255, -1] {
+            for &n in &[0i64, 1, 31, 32, 33, 63, 64, 127, 128, -1] {
+                for &v in &[0i64, 1, 16383, 16384, 65535, -1] {
+                    let val = cc14_t.with(&[("channel", json!(c)), ("cn", json!(n)), ("value", json!(v))]);
+                    let (r, _) = guarded(|| way.de::<ControlChange14BitMessage>(val));
+                    let mut row = vec![k_cc14, c, n, v];
+                    match r {
+                        Some(Ok(m)) => {
+                            let (lsb, _) = guarded(|| m.lsb_controller_number().get() as i64);
+                            let (enc, _) = guarded(|| {
+                                let a: [RawShortMessage; 2] = m.to_short_messages();
+                                a[1].data_byte_1().get() as i64
+                            });
+                            row.extend_from_slice(&[1, m.channel().get() as i64, m.msb_controller_number().get() as i64,
+                                                    m.value().get() as i64, lsb.unwrap_or(PANIC), enc.unwrap_or(PANIC)]);
+                        }
+                        Some(Err(_)) => row.push(0),
+                        None => row.push(PANIC),
+                    }
+                    w.push(&row);
+                }
+            }
+        }
+    }
+
+    if k_pn != 0 {
+        let t = pn_template(way);
+        for &c in &[0i64, 9, 15, 16] {
+            for &n in &[0i64, 1, 5, 6, 7, 127, 128, 16383, 16384] {
+                for &v in &[0i64, 1, 15, 16, 100, 127, 128, 640, 3000, 16383, 16384] {
+                    for reg in 0..2 {
+                        for b14 in 0..2 {
+                            for dt in 0..4 {
+                                let val = t.t.with(&[("channel", json!(c)), ("number", json!(n)), ("value", json!(v)),
+                                                     ("reg", t.reg[reg as usize].clone()), ("b14", t.b14[b14 as usize].clone()),
+                                                     ("dt", t.dt[dt as usize].clone())]);
+                                let (r, _) = guarded(|| way.de::<ParameterNumberMessage>(val));
+                                let mut row = vec![k_pn, c, n, v, reg, b14, dt];
+                                match r {
+                                    Some(Ok(m)) => {
+                                        let (enc, _) = guarded(|| {
+                                            let a: [Option<RawShortMessage>; 4] =
+                                                m.to_short_messages(DataEntryByteOrder::MsbFirst);
+                                            a.iter().flatten().map(|x| x.data_byte_2().get() as i64).max().unwrap_or(0)
+                                        });
+                                        let rep = crate::basics::pn_report(&m);
+                                        row.push(1);
+                                        row.extend(rep.as_array().unwrap().iter().map(|x| x.as_i64().unwrap()));
+                                        row.push(enc.unwrap_or(PANIC));
+                                    }
+                                    Some(Err(_)) => row.push(0),
+                                    None => row.push(PANIC),
+                                }
+                                w.push(&row);
+                            }
+                        }
+                    }
+                }
+            }
+        }
+    }
+
+    if k_st != 0 {
+        // StructuredShortMessage from its natural (externally tagged) representation
+        let f7 = [0i64, 1, 127, 128, 255];
+        let fc = [0i64, 15, 16];
+        let f14 = [0i64, 127, 128, 16383, 16384, 65535];
+        let mut codes: Vec<[i64; 4]> = vec![];
+        for v in 0..=3 {
+            for &c in &fc {
+                for &a in &f7 {
+                    for &b in &f7 {
+                        codes.push([v, c, a, b]);
+                    }
+                }
+            }
+        }
+        for v in 4..=5 {
+            for &c in &fc {
+                for &a in &f7 {
+                    codes.push([v, c, a, 0]);
+                }
+            }
+        }
+        for &c in &fc {
+            for &a in &f14 {
+                codes.push([6, c, a, 0]);
+            }
+        }
+        for k in 0..7 {
+            for a in [0i64, 1, 15, 16, 127] {
+                codes.push([8, k, a, 0]);
+            }
+        }
+        for a in 0..2 {
+            for t in 0..5 {
+                codes.push([8, 7, a, t]);
+            }
+        }
+        for &a in &f14 {
+            codes.push([9, a, 0, 0]);
+        }
+        for &a in &f7 {
+            codes.push([10, a, 0, 0]);
+        }
+        for v in [7, 11, 12, 13, 14, 15, 16, 17, 18, 19, 20, 21, 22] {
+            codes.push([v, 0, 0, 0]);
+        }
+        for c in codes {
+            let (r, _) = guarded(|| way.de::<StructuredShortMessage>(structured_input(way, c)));
+            let mut row = vec![k_st, c[0], c[1], c[2], c[3]];
+            match r {
+                Some(Ok(m)) => {
+                    let got = structured_code(&m);
+                    row.push(1);
+                    row.extend_from_slice(&got);
+                }
+                Some(Err(_)) => row.push(0),
+                None => row.push(PANIC),
+            }
+            w.push(&row);
+        }
+    }
+}
+
+/// natural representation of valid composite values: serialize, deserialize, compare
+fn roundtrip_rows(w: &mut ChunkWriter, way: &Way) {
+    let off = 100 * way.code;
+    let mut rt = |tid: i64, a: [i64; 4], ok_eq: Option<Result<bool, ()>>| {
+        let (ok, eq) = match ok_eq {
+            Some(Ok(e)) => (1, e as i64),
+            Some(Err(_)) => (0, 0),
+            None => (PANIC, PANIC),
+        };
+        w.push(&[7, off + tid, a[0], a[1], a[2], a[3], ok, eq]);
+    };
+    for s in 128..256i64 {
+        for &(a, b) in &[(0i64, 0i64), (1, 127), (127, 1), (64, 64), (120, 5)] {
+            let m = RawShortMessage::from_bytes((s as u8, U7::new(a as u8), U7::new(b as u8))).unwrap();
+            let (r, _) = guarded(|| way.de::<RawShortMessage>(way.ser(&m)).map(|y| y == m).map_err(|_| ()));
+            rt(6, [s, a, b, 0], r);
+            let x = m.to_structured();
+            let (r, _) = guarded(|| way.de::<StructuredShortMessage>(way.ser(&x)).map(|y| y == x).map_err(|_| ()));
+            rt(7, [s, a, b, 0], r);
+        }
+    }
+    for c in 0..16i64 {
+        for n in 0..32i64 {
+            for &v in &[0i64, 1, 8192, 16383] {
+                let m = ControlChange14BitMessage::new(Channel::new(c as u8), ControllerNumber::new(n as u8), U14::new(v as u16));
+                let (r, _) = guarded(|| way.de::<ControlChange14BitMessage>(way.ser(&m)).map(|y| y == m).map_err(|_| ()));
+                rt(8, [c, n, v, 0], r);
+            }
+        }
+    }
+    for ctor in 0..8i64 {
+        for &c in &[0i64, 9, 15] {
+            for &n in &[0i64, 127, 128, 16383] {
+                for &v in &[0i64, 1, 127] {
+                    let reg = (ctor >= 4) as i64;
+                    let (b14, dt) = match ctor % 4 { 0 => (0, 0), 1 => (1, 0), 2 => (0, 2), _ => (0, 1) };
+                    let vv = if b14 == 1 { v * 129 } else { v };
+                    let m = crate::basics::build_pn(&[c, n, vv, reg, b14, dt]);
+                    let (r, _) = guarded(|| way.de::<ParameterNumberMessage>(way.ser(&m)).map(|y| y == m).map_err(|_| ()));
+                    rt(9, [ctor, c, n, vv], r);
+                }
+            }
+        }
+    }
+    for k in 0..8i64 {
+        for a in 0..(if k == 7 { 2 } else { 16 }) {
+            for t in 0..(if k == 7 { 4 } else { 1 }) {
+                let f = crate::pure::frame_of([k, a, t]);
+                let (r, _) = guarded(|| way.de::<TimeCodeQuarterFrame>(way.ser(&f)).map(|y| frame_code(y) == [k, a, t]).map_err(|_| ()));
+                rt(11, [k, a, t, 0], r);
+            }
+        }
+    }
+    for b in 128..256i64 {
+        if let Ok(t) = ShortMessageType::try_from(b as u8) {
+            let (r, _) = guarded(|| way.de::<ShortMessageType>(way.ser(&t)).map(|y| y == t).map_err(|_| ()));
+            rt(12, [b, 0, 0, 0], r);
+        }
+    }
+}
+
 pub fn table_serde(dir: &str, _tier: &str, _seed: u64, per: usize) -> (usize, u64) {
     let mut w = ChunkWriter::new(dir, per);
     let mut ints: Vec<i128> = (0..=65535).collect();
@@ -185,169 +512,8 @@ pub fn table_serde(dir: &str, _tier: &str, _seed: u64, per: usize) -> (usize, u6
     int_rows!(w, KeyNumber, 4, ints);
     int_rows!(w, ControllerNumber, 5, ints);
 
-    // RawShortMessage: natural representation of (144, 1, 2), patched
-    let raw_base = self_describing(&RawShortMessage::from_bytes((144, U7::new(1), U7::new(2))).unwrap());
-    let raw_t = Template {
-        fields: vec![("s".into(), find_num(&raw_base, 144, "status")), ("a".into(), find_num(&raw_base, 1, "data 1")),
-                     ("b".into(), find_num(&raw_base, 2, "data 2"))],
-        base: raw_base,
-    };
-    let ss = [0i64, 1, 2, 127, 128, 144, 176, 239, 240, 241, 247, 248, 255, 256, 300, -1];
-    let ds = [0i64, 1, 127, 128, 255, 256, -1];
-    for &s in &ss {
-        for &a in &ds {
-            for &b in &ds {
-                let input = raw_t.with(&[("s", json!(s)), ("a", json!(a)), ("b", json!(b))]);
-                let (r, _) = guarded(|| from_value::<RawShortMessage>(input));
-                let mut row = vec![2, s, a, b];
-                match r {
-                    Some(Ok(m)) => {
-                        let (t, _) = guarded(|| u8::from(m.r#type()) as i64);
-                        let (st, _) = guarded(|| structured_code(&m.to_structured()));
-                        row.extend_from_slice(&[1, m.status_byte() as i64, m.data_byte_1().get() as i64,
-                                                m.data_byte_2().get() as i64, t.unwrap_or(PANIC),
-                                                st.map(|x| x[0]).unwrap_or(PANIC)]);
-                    }
-                    Some(Err(_)) => row.push(0),
-                    None => row.push(PANIC),
-                }
-                w.push(&row);
-            }
-        }
-    }
-    for bad in [json!([144, 1]), json!([144, 1, 2, 3]), json!({"0": 144}), json!("x"), json!(144), json!(null)] {
-        let ok = from_value::<RawShortMessage>(bad).is_ok() as i64;
-        w.push(&[2, -9, -9, -9, ok]);
-    }
-
-    // ControlChange14BitMessage: self-describing (3) and positional (9) natural representation, patched
-    let cc14_map = cc14_template(|m| self_describing(m));
-    let cc14_seq = cc14_template(|m| positional(m));
-    for &c in &[0i64, 15, 16, 255, -1] {
-        for &n in &[0i64, 1, 31, 32, 33, 63, 64, 127, 128, -1] {
-            for &v in &[0i64, 1, 16383, 16384, 65535, -1] {
-              for kind in [3i64, 9] {
-                let t = if kind == 3 { &cc14_map } else { &cc14_seq };
-                let val = t.with(&[("channel", json!(c)), ("cn", json!(n)), ("value", json!(v))]);
-                let (r, _) = guarded(|| from_value::<ControlChange14BitMessage>(val));
-                let mut row = vec![kind, c, n, v];
-                match r {
-                    Some(Ok(m)) => {
-                        let (lsb, _) = guarded(|| m.lsb_controller_number().get() as i64);
-                        let (enc, _) = guarded(|| {
-                            let a: [RawShortMessage; 2] = m.to_short_messages();
-                            a[1].data_byte_1().get() as i64
-                        });
-                        row.extend_from_slice(&[1, m.channel().get() as i64, m.msb_controller_number().get() as i64,
-                                                m.value().get() as i64, lsb.unwrap_or(PANIC), enc.unwrap_or(PANIC)]);
-                    }
-                    Some(Err(_)) => row.push(0),
-                    None => row.push(PANIC),
-                }
-                w.push(&row);
-              }
-            }
-        }
-    }
-
-    // ParameterNumberMessage
-    let pn_map = pn_template(|m| self_describing(m));
-    let pn_seq = pn_template(|m| positional(m));
-    for &c in &[0i64, 9, 15, 16] {
-        for &n in &[0i64, 1, 5, 6, 7, 127, 128, 16383, 16384] {
-            for &v in &[0i64, 1, 15, 16, 100, 127, 128, 640, 3000, 16383, 16384] {
-                for reg in 0..2 {
-                    for b14 in 0..2 {
-                        for dt in 0..4 {
-                          for kind in [4i64, 8] {
-                            let t = if kind == 4 { &pn_map } else { &pn_seq };
-                            let val = t.t.with(&[("channel", json!(c)), ("number", json!(n)), ("value", json!(v)),
-                                                 ("reg", t.reg[reg as usize].clone()), ("b14", t.b14[b14 as usize].clone()),
-                                                 ("dt", t.dt[dt as usize].clone())]);
-                            let (r, _) = guarded(|| from_value::<ParameterNumberMessage>(val));
-                            let mut row = vec![kind, c, n, v, reg, b14, dt];
-                            match r {
-                                Some(Ok(m)) => {
-                                    let (enc, _) = guarded(|| {
-                                        let a: [Option<RawShortMessage>; 4] =
-                                            m.to_short_messages(DataEntryByteOrder::MsbFirst);
-                                        a.iter().flatten().map(|x| x.data_byte_2().get() as i64).max().unwrap_or(0)
-                                    });
-                                    let rep = crate::basics::pn_report(&m);
-                                    row.push(1);
-                                    row.extend(rep.as_array().unwrap().iter().map(|x| x.as_i64().unwrap()));
-                                    row.push(enc.unwrap_or(PANIC));
-                                }
-                                Some(Err(_)) => row.push(0),
-                                None => row.push(PANIC),
-                            }
-                            w.push(&row);
-                          }
-                        }
-                    }
-                }
-            }
-        }
-    }
-
-    // StructuredShortMessage from its natural (externally tagged) representation
-    let f7 = [0i64, 1, 127, 128, 255];
-    let fc = [0i64, 15, 16];
-    let f14 = [0i64, 127, 128, 16383, 16384, 65535];
-    let mut codes: Vec<[i64; 4]> = vec![];
-    for v in 0..=3 {
-        for &c in &fc {
-            for &a in &f7 {
-                for &b in &f7 {
-                    codes.push([v, c, a, b]);
-                }
-            }
-        }
-    }
-    for v in 4..=5 {
-        for &c in &fc {
-            for &a in &f7 {
-                codes.push([v, c, a, 0]);
-            }
-        }
-    }
-    for &c in &fc {
-        for &a in &f14 {
-            codes.push([6, c, a, 0]);
-        }
-    }
-    for k in 0..7 {
-        for a in [0i64, 1, 15, 16, 127] {
-            codes.push([8, k, a, 0]);
-        }
-    }
-    for a in 0..2 {
-        for t in 0..5 {
-            codes.push([8, 7, a, t]);
-        }
-    }
-    for &a in &f14 {
-        codes.push([9, a, 0, 0]);
-    }
-    for &a in &f7 {
-        codes.push([10, a, 0, 0]);
-    }
-    for v in [7, 11, 12, 13, 14, 15, 16, 17, 18, 19, 20, 21, 22] {
-        codes.push([v, 0, 0, 0]);
-    }
-    for c in codes {
-        let (r, _) = guarded(|| from_value::<StructuredShortMessage>(structured_input(c)));
-        let mut row = vec![5, c[0], c[1], c[2], c[3]];
-        match r {
-            Some(Ok(m)) => {
-                let got = structured_code(&m);
-                row.push(1);
-                row.extend_from_slice(&got);
-            }
-            Some(Err(_)) => row.push(0),
-            None => row.push(PANIC),
-        }
-        w.push(&row);
+    for way in ways().iter() {
+        composite_rows(&mut w, way);
     }
 
     // ShortMessageType via serde_repr
@@ -361,56 +527,8 @@ pub fn table_serde(dir: &str, _tier: &str, _seed: u64, per: usize) -> (usize, u6
         w.push(&[6, b, ok, back]);
     }
 
-    // natural representation of valid composite values: serialize, deserialize, compare
-    let mut rt = |tid: i64, a: [i64; 4], ok_eq: Option<Result<bool, ()>>| {
-        let (ok, eq) = match ok_eq {
-            Some(Ok(e)) => (1, e as i64),
-            Some(Err(_)) => (0, 0),
-            None => (PANIC, PANIC),
-        };
-        w.push(&[7, tid, a[0], a[1], a[2], a[3], ok, eq]);
-    };
-    for s in 128..256i64 {
-        for &(a, b) in &[(0i64, 0i64), (1, 127), (127, 1), (64, 64), (120, 5)] {
-            let m = RawShortMessage::from_bytes((s as u8, U7::new(a as u8), U7::new(b as u8))).unwrap();
-            let (r, _) = guarded(|| from_value::<RawShortMessage>(to_value(m).unwrap()).map(|y| y == m).map_err(|_| ()));
-            rt(6, [s, a, b, 0], r);
-            let x = m.to_structured();
-            let (r, _) = guarded(|| from_value::<StructuredShortMessage>(to_value(x).unwrap()).map(|y| y == x).map_err(|_| ()));
-            rt(7, [s, a, b, 0], r);
-        }
-    }
-    for c in 0..16i64 {
-        for n in 0..32i64 {
-            for &v in &[0i64, 1, 8192, 16383] {
-                let m = ControlChange14BitMessage::new(Channel::new(c as u8), ControllerNumber::new(n as u8), U14::new(v as u16));
-                let (r, _) = guarded(|| from_value::<ControlChange14BitMessage>(to_value(m).unwrap()).map(|y| y == m).map_err(|_| ()));
-                rt(8, [c, n, v, 0], r);
-            }
-        }
-    }
-    for ctor in 0..8i64 {
-        for &c in &[0i64, 9, 15] {
-            for &n in &[0i64, 127, 128, 16383] {
-                for &v in &[0i64, 1, 127] {
-                    let reg = (ctor >= 4) as i64;
-                    let (b14, dt) = match ctor % 4 { 0 => (0, 0), 1 => (1, 0), 2 => (0, 2), _ => (0, 1) };
-                    let vv = if b14 == 1 { v * 129 } else { v };
-                    let m = crate::basics::build_pn(&[c, n, vv, reg, b14, dt]);
-                    let (r, _) = guarded(|| from_value::<ParameterNumberMessage>(to_value(m).unwrap()).map(|y| y == m).map_err(|_| ()));
-                    rt(9, [ctor, c, n, vv], r);
-                }
-            }
-        }
-    }
-    for k in 0..8i64 {
-        for a in 0..(if k == 7 { 2 } else { 16 }) {
-            for t in 0..(if k == 7 { 4 } else { 1 }) {
-                let f = crate::pure::frame_of([k, a, t]);
-                let (r, _) = guarded(|| from_value::<TimeCodeQuarterFrame>(to_value(f).unwrap()).map(|y| frame_code(y) == [k, a, t]).map_err(|_| ()));
-                rt(11, [k, a, t, 0], r);
-            }
-        }
+    for way in ways().iter().filter(|w| w.roundtrip) {
+        roundtrip_rows(&mut w, way);
     }
     let _ = structured_of;
     w.finish()
